@@ -238,6 +238,27 @@ def recall_scenario(rng, n, quick):
     return ops
 
 
+def asof_scenario(rng, quick):
+    """C11 with few short documents (sparse sketches): a word that only the newest documents contain, cut-offs just before them
+    (by frame and by timestamp, with back-dated and with monotone timestamps), pre-filter on and off, live and reopened."""
+    ops = [{"op": "create"}]
+    n = 14
+    for i in range(n):
+        words = [i % 8] + ([9] if i >= n - 2 else [])
+        ops.append({"op": "put", "uri": "mv2://a/%d" % i, "pay": i + 1, "cls": "text", "size": rng.choice([40, 60, 90]), "ts": 1000 + i * 10,
+                    "words": words, "atoms": ["w%d" % w for w in words]})
+    ops.append({"op": "commit"})
+    qs = []
+    for ns in (False, True):
+        for cut in (n - 3, n - 4, 5):
+            qs.append({"op": "search", "toks": ["w9"], "top_k": 10, "as_of_frame": cut, "with_base": True, "no_sketch": ns})
+        for t in (1000 + (n - 3) * 10, 1000 + (n - 3) * 10 + 5, 1050):
+            qs.append({"op": "search", "toks": ["w9"], "top_k": 10, "as_of_ts": t, "with_base": True, "no_sketch": ns})
+        qs.append({"op": "search", "toks": ["w9"], "top_k": 10, "as_of_frame": n - 2, "with_base": True, "no_sketch": ns})
+    ops += qs + [{"op": "close"}, {"op": "open"}] + [dict(q) for q in qs] + [{"op": "close"}]
+    return ops
+
+
 def pagination_small(rng, quick):
     """C16 where nothing as built excuses a difference: fewer matching documents than the smallest candidate window (20), some
     of them with two snippet slices, timestamps days apart and not in insertion order, every page size from 1 to 10."""
@@ -292,6 +313,7 @@ def engine(tier):
     scs = [{"id": 1, "ops": pagination_scenario(rng, 48 if quick else 90, quick)}]
     scs.append({"id": 2, "ops": recall_scenario(rng, 130 if quick else 190, quick)})
     scs.append({"id": 3, "ops": pagination_small(rng, quick)})
+    scs.append({"id": 4, "ops": asof_scenario(rng, quick)})
     sizes = [6, 14, 30] if quick else [4, 8, 14, 24, 40, 60, 90, 120] * 3
     for n in sizes:
         scs.append({"id": len(scs) + 1, "ops": scenario(rng, quick, n)})
